@@ -66,6 +66,16 @@ def rand_specs(R, finite=False, samename=False, maxdepth=3, top=(1, 3), prefix="
 
     for _ in range(R.randint(*top)):
         decl(0, [])
+    if samename:
+        # `units` under model=mlp ... other declarations ... `units` under model=cnn: a same-name copy (always a leaf whose
+        # parents are declared before it) may come much later than its twin
+        seen, late = set(), []
+        for s_ in list(specs):
+            if s_["name"] in seen and R.random() < 0.5:
+                specs.remove(s_)
+                late.append(s_)
+            seen.add(s_["name"])
+        specs.extend(late)
     if nonfixed and all(s["kind"] == "fixed" for s in specs):
         # the Bayesian oracle cannot fit a Gaussian process on a zero-dimensional space (sklearn raises);
         # recorded in DESIGN.md as an observation outside the listed properties
